@@ -154,7 +154,7 @@ can return a word ≥ M (here lane 0 = 2^64 − 1) -/
 theorem mds_multiply_emits_noncanonical :
     ∃ st : List W, st.length = 12 ∧ (∀ w ∈ st, F64.Rep w) ∧ ∃ w ∈ mds12 st, ¬ F64.Rep w := by
   refine ⟨[0x2492491424924914#64, 0x500000005#64, 0, 0, 0, 0, 0, 0, 0, 0, 0, 0], rfl, ?_, 0xffffffffffffffff#64, ?_, ?_⟩
-  · decide +kernel
+  · exact all_rep _ (by decide +kernel)
   · rw [mds12_eq _ rfl]; decide +kernel
   · decide
 
@@ -352,7 +352,7 @@ theorem rp64_code_injective (a b : List W) (ha : a.length = 12) (hb : b.length =
   have hz : a.map zval = b.map zval := by
     have e := congrArg (refPermInv (zops p64) rp64Params RescueConsts.Rp64.INV_MDS) (h1.symm.trans h2)
     rwa [(rp64_permutation_bijective _ (by simp [ha])).1, (rp64_permutation_bijective _ (by simp [hb])).1] at e
-  clear h h1 h2
+  clear h h1 h2 ha hb
   induction a generalizing b with
   | nil => cases b with
     | nil => rfl
@@ -388,13 +388,12 @@ theorem merge_eq_hash_elements_rp62 (perm : List Nat → List Nat) (a b : List N
 theorem merge_many_and_hash_are_hash_elements (h : Hasher) (ds : List (List Nat)) (bs : Bytes) :
     h.mergeMany ds = h.hashElements ds.flatten ∧ h.hash bs = h.hashElements (bytesToElems bs) := ⟨rfl, rfl⟩
 
-/-- Jive: `merge` is the compression mode — state = a ++ b, one permutation, Jive summation -/
-theorem jive_merge_is_compression (perm : List Nat → List Nat) (a b : List Nat) (ha : a.length = 4) (hb : b.length = 4) :
+/-- Jive: `merge` is the compression mode — state = a ++ b (the rate words are added to zeros), one
+permutation, then the Jive summation of the state before and after -/
+theorem jive_merge_is_compression (perm : List Nat → List Nat) (a b : List Nat) :
     (jiveH perm).merge a b =
-      (List.range 4).map (fun i => (a.getD i 0 + (b.getD i 0 + 0) % rpJive64.p + (perm (a ++ b.map (fun x => (0 + x) % rpJive64.p))).getD i 0
-        + (perm (a ++ b.map (fun x => (0 + x) % rpJive64.p))).getD (4 + i) 0) % rpJive64.p) := by
-  match a, b, ha, hb with
-  | [_, _, _, _], [_, _, _, _], _, _ => rfl
+      jiveSum rpJive64.p (a, rpJive64.addVec (List.replicate 4 0) b)
+        ((jiveH perm).permOn (a, rpJive64.addVec (List.replicate 4 0) b)) := rfl
 
 /-! ## non-vacuity -/
 
@@ -403,8 +402,8 @@ example : (rp64Ref (List.replicate 12 0)).head? = some 7962715374947276948 := by
 example : (rp64CodeV (List.replicate 12 0)).head? = some 7962715374947276948 := by
   rw [rp64_permutation_eq_reference _ rfl (by decide)]; decide +kernel
 -- hypotheses of the word-level theorem are satisfiable by a non-trivial state
-example : ∀ w ∈ [w64 1, w64 2, w64 3, w64 4, w64 5, w64 6, w64 7, w64 8, w64 9, w64 10, w64 11, w64 12], F64.Rep w := by
-  decide +kernel
+example : ∀ w ∈ [w64 1, w64 2, w64 3, w64 4, w64 5, w64 6, w64 7, w64 8, w64 9, w64 10, w64 11, w64 12], F64.Rep w :=
+  all_rep _ (by decide +kernel)
 -- the bound on the constants is not vacuous: it excludes reduced words
 example : ¬ ((0xfffffffe00000003#64 : W) ≤ 0xfffffffe00000002#64) ∧ F64.Rep 0xfffffffe00000003#64 := by
   decide
